@@ -26,20 +26,27 @@ ASSUMPTIONS = ["inputs lie on integer/dyadic grids so that the float predicates 
                "sqrt is modelled: |a-b| < tol as |a-b|^2 < tol^2, vector_magnitude(c)**2 as c.c",
                "multiprocessing.Pool.map is modelled as an order-preserving map",
                "voxel bounding boxes have extents that are dyadic multiples of (size-1), so that frange's float accumulation is exact"]
-THEOREM_NOTES = "see coq/Props/C20.v; [G] = all inputs, stated over the reals (Rops instance of the executable model)"
-LEVEL_TEXT = ("Coq theorems over the reals about the executable Gallina model (coq/Model/Geom2D.v, Voxel.v): [G] is_left = twice the signed "
-              "area (ring) and its antisymmetry/rotation; [G] ray.intersect: status COLINEAR iff all direction cross-product components are "
-              "below the tolerance, and whenever the cross product is non-zero and the lines meet the returned parameters are the unique "
-              "ones with eval r1 t1 = eval r2 t2 (2-D: always; 3-D: under coplanarity), status INTERSECT iff the points are within tol; "
-              "[G] winding number of a ccw rectangle / triangle is non-zero exactly for strictly interior points (off the boundary); "
-              "[G] convex_hull returns a subset of the input, consecutive strict left turns on each half hull; [G] voxel filled iff some "
-              "point in the padded half-open box (existsb), grid covers the bounding box; [G] find_ctrlpts = the p+1 points starting at span-p, "
-              "i.e. exactly the points whose basis functions can be non-zero on the span (linked to C03 span search). PARTIAL: "
-              "hull_contains_all_points (every input point inside the returned hull) is not proved - only checked by the exact oracle; "
-              "general simple polygons for wn_poly are covered by the exact oracle, not by a theorem.")
+THEOREM_NOTES = ("coq/Props/C20.v (all over R, Rops instance of the executable model): C20_is_left_twice_signed_area, C20_is_left_antisymmetric [G, ring]; "
+                 "C20_intersect_2d_params_correct [G, field], C20_intersect_3d_meeting_rays [G, nsatz+field], C20_intersect_status_meaning [G, by definition], "
+                 "C20_parallel_rays_colinear [G]; C20_wn_rectangle_partial [B: axis-parallel rectangles, both orientations; general simple polygons = "
+                 "Definition C20_wn_simple_polygon_full, not proved]; C20_hull_subset, C20_hull_strict_left_turns [G]; C20_hull_contains_all_points_full "
+                 "(Definition, not proved); C20_voxel_filled_iff_some_point_inside, C20_find_inouts_pointwise, C20_voxel_grid_covers_bbox [G]; "
+                 "C20_find_ctrlpts_window, C20_find_ctrlpts_surface_window [G, by definition], C20_find_ctrlpts_is_active_window [G, uses C03 span search + Cox-de Boor support]")
+LEVEL_TEXT = ("Coq theorems over the reals about the executable Gallina model (coq/Model/Geom2D.v, Voxel.v): [G] is_left = twice the signed area, antisymmetry; "
+              "[G] ray.intersect: in 2-D, whenever the direction cross product is not below the tolerance, the status is INTERSECT and the returned parameters "
+              "are the unique solution with eval r1 t1 = eval r2 t2; in 3-D, if the lines meet the returned parameters are exactly the meeting parameters "
+              "and the status is INTERSECT; status COLINEAR iff all cross-product components are below the tolerance, INTERSECT/SKEW iff the evaluated "
+              "points are closer than / at least the tolerance; proportional directions give COLINEAR; [G] convex_hull returns a subset of the input and "
+              "both half hulls turn strictly left at every vertex; [G] a voxel is marked 1 iff some point lies in its padded half-open box, flags are "
+              "computed voxel by voxel (multi-process = single-process function), the generated grid covers the bounding box; [G] find_ctrlpts returns the "
+              "p+1 points starting at span-p and every control point with a non-zero Cox-de Boor basis function at the parameter is among them. "
+              "BOUNDED/PARTIAL: the winding-number theorem is proved only for axis-parallel rectangles (exact half-open characterisation); general simple "
+              "polygons, 'every input point lies inside the hull' and the skew status for non-meeting 3-D rays are checked by the exact Fraction oracles on "
+              "every run, not proved.")
 LEVEL_NOTE = ("Trusted: Coq 8.16.1 kernel incl. vm_compute; standard-library real-number axioms as printed by Print Assumptions; the model is tied "
-              "to /repo by the sampled correspondence check; float predicates are compared on integer/dyadic inputs where they are exact; "
-              "sqrt and multiprocessing are modelled, not verified.")
+              "to /repo by the sampled correspondence check; float predicates are compared on integer/dyadic inputs where they are exact (the property's own "
+              "domain: points off the boundary); sqrt (distance < tol as squared distance) and multiprocessing.Pool.map (order-preserving map) are modelled, "
+              "not verified.")
 TECHNIQUE = "machine-checked proof in Coq (ring/field/nsatz/lra over R) on a Gallina model + vm_compute correspondence with geomdl + exact Fraction oracles"
 
 
